@@ -126,12 +126,14 @@ def binValue : List Char → Nat → Option Nat
   | _ :: _, _ => none
 
 /-- `BV("#b0101")` / `BV("0101")`, optional width that must agree (formula.py:619-633).
-(The empty string and `"#b"` make `int("", 2)` raise a plain `ValueError`.) -/
+Only the characters `0` and `1` are accepted after the optional `#b` (repaired: `int(s, 2)` used
+to accept signs, underscores, blanks and `0b` after `#b`). The empty string and `"#b"` make
+`int("", 2)` raise a plain `ValueError`. -/
 def BVStr (s : String) (width : Option Nat := .none) : R :=
   let digits := if s.startsWith "#b" then (s.drop 2).toString.toList else s.toList
   if digits.isEmpty then .error .pyValue else
   match binValue digits 0 with
-  | .none => .error (if s.startsWith "#b" then .pyValue else .value)
+  | .none => .error .value
   | some v =>
     match width with
     | some w => if w ≠ digits.length then .error .value else BV v digits.length
@@ -499,18 +501,28 @@ def StrCharAt (s i : Term) : R := create .strCharAt [s, i]
 def Select (a i : Term) : R := create .arraySelect [a, i]
 def Store (a i v : Term) : R := create .arrayStore [a, i, v]
 
-/-- `Array(idx_type, default, assigned_values)` (formula.py:1098-1120); `assigned` is the
-dictionary in the order in which the code visits it (sorted by `id`, supplied by the caller) -/
-def arrayArgs (dflt : Term) : List (Term × Term) → Except Err (List Term)
+/-- `FNode.is_constant()` (fnode.py:145-161): a constant node, or an array value all of whose
+children are constants -/
+def isConstantFull : Term → Bool
+  | .node .arrayValue args _ => (args.map isConstantFull).all id
+  | .node op _ _ => op.isConstant
+
+/-- `Array(idx_type, default, assigned_values)` (formula.py:1098-1127); `assigned` is the
+dictionary in the order in which the code visits it (sorted by `id`, supplied by the caller).
+Every key must be a constant; a pair whose value is the default is dropped, after its key has
+been checked against the index sort (the type checker never sees a dropped pair). -/
+def arrayArgs (idx : Ty) (dflt : Term) : List (Term × Term) → Except Err (List Term)
   | [] => .ok []
   | (k, v) :: rest =>
-    if !isConstant k ∧ k.op ≠ .arrayValue then .error .value
+    if !isConstantFull k then .error .value
+    else if v = dflt then
+      (if k.typeOf = some idx then arrayArgs idx dflt rest else .error .type)
     else do
-      let more ← arrayArgs dflt rest
-      if v = dflt then .ok more else .ok (k :: v :: more)
+      let more ← arrayArgs idx dflt rest
+      .ok (k :: v :: more)
 
 def Array (idx : Ty) (dflt : Term) (assigned : List (Term × Term)) : R := do
-  let more ← arrayArgs dflt assigned
+  let more ← arrayArgs idx dflt assigned
   create .arrayValue (dflt :: more) (.ty idx)
 
 /-! ## `shortcuts.Abs` (shortcuts.py:251-273) -/
